@@ -178,6 +178,18 @@ fn main() {
     }).reduce(Stats::default, Stats::merge);
     let sb = sb.merge(sb2);
 
+    // (b3) long inputs: lengths around 2^7, 2^8, 2^10, 2^12, 2^16 (a parser working on a bounded prefix or buffer)
+    let mut sl = Stats::default();
+    for n in [120usize, 127, 128, 255, 256, 257, 300, 1024, 4096, 65536] {
+        for x in [format!("1.0.0-{}", "a".repeat(n)), format!("1.0.0-{}!", "a".repeat(n)), format!("1.0.0+{}", "a".repeat(n)), format!("1.0.0-a{}", ".a".repeat(n / 2)), format!("1.0.0-a{}.", ".a".repeat(n / 2)),
+            format!("1.0.0-a{}..b", "a".repeat(n)), format!("1.0.0+{}.007", "0-".repeat(n / 2)), format!("{}.0.0", "1".repeat(n)), format!("1.0.0-{}1", "0".repeat(n)), format!("v1.0.0-rc.1+{}", "b.".repeat(n / 2) + "b")] {
+            sl.inc("long_inputs");
+            let v = judge(&x, n <= 4096, &mut sl);
+            report(&ctx, &x, "long", v, &mut sl);
+        }
+    }
+    let sb = sb.merge(sl);
+
     // (c) boundary numerals in each numeric position
     let nums = ["0", "1", "00", "01", "4294967295", "4294967296", "18446744073709551615",
         "18446744073709551616", "99999999999999999999999", "100000000000000000000000000000"];
@@ -257,7 +269,7 @@ fn main() {
     cov.evaluations = cov.states;
     cov.traces_validated = cov.states;
     cov.distinct_nontrivial = all.get("model_accepts") + sb.get("edits");
-    cov.rule = format!("(a) every string over {sigma9:?} up to length {la} (check command on length <= {lcheck}); (b) every string accepted by the reference DFA up to length {lb} over [0 1 2 a - . + v] and each of its single-symbol insertions/deletions/substitutions over {edit_syms:?} (edits introducing white space also through the check command); (b2) every accepted string up to length 7 padded left/right with 8 white-space strings (ASCII and Unicode), parser and check command; (c) boundary numerals x numeric positions. non-trivial = strings the reference accepts plus strings within one edit of an accepted one (evaluations, duplicates between (a) and (b) not removed)");
+    cov.rule = format!("(a) every string over {sigma9:?} up to length {la} (check command on length <= {lcheck}); (b) every string accepted by the reference DFA up to length {lb} over [0 1 2 a - . + v] and each of its single-symbol insertions/deletions/substitutions over {edit_syms:?} (edits introducing white space also through the check command); (b2) every accepted string up to length 7 padded left/right with 8 white-space strings (ASCII and Unicode), parser and check command; (b3) ten long-input shapes at lengths 120..65536; (c) boundary numerals x numeric positions. non-trivial = strings the reference accepts plus strings within one edit of an accepted one (evaluations, duplicates between (a) and (b) not removed)");
     cov.exhaustive = true;
     cov.samples = vec![json!("1.0.0-0a.٣"), json!(lang[lang.len() / 2]), json!(lang[lang.len() - 1]), c_samples[0].clone()];
     cov.set("clause_counts", all.to_json());
